@@ -485,6 +485,13 @@ void instrument_install(World &w, const InstrOpts &o) {
         SCPI_ResultArbitraryBlockData(ww.ctx, "12345", 5);
         return SCPI_RES_OK;
     });
+    w.add_command("TEST:BLKThen?", [](World &ww) {
+        // leaves a block unfinished and then writes another result (a handler fault the library must contain within the unit)
+        SCPI_ResultArbitraryBlockHeader(ww.ctx, 5);
+        SCPI_ResultArbitraryBlockData(ww.ctx, "ab", 2);
+        SCPI_ResultInt32(ww.ctx, 7);
+        return SCPI_RES_OK;
+    });
     w.add_command("TEST:BLKData?", [](World &ww) {
         // block data without a header of its own: must be refused unless this unit announced a block (it did not)
         size_t n = SCPI_ResultArbitraryBlockData(ww.ctx, "zz", 2);
@@ -532,7 +539,7 @@ void instrument_install(World &w, const InstrOpts &o) {
 namespace {
 const char *HEADERS_PLAIN[] = {
     "*IDN?", "*OPC", "*OPC?", "*WAI", "*TST?", "*RST", "SYST:VERS?", "SYSTem:VERSion?", "TEST:TREEA?", "TEST:TREEB?", "test:treea?", ":TEST:TREEB?",
-    "TEST:MULT?", "TEST:MULTi?", "TEST:NORE?", "TEST:FAIL", "TEST:FAIL?", "TEST:ERR", "TEST:BLKH?", "TEST:BLKD?", "STUB", "STUB?", "VOLT?", "MEAS:VOLT?", "MEAS:VOLT:DC?",
+    "TEST:MULT?", "TEST:MULTi?", "TEST:NORE?", "TEST:FAIL", "TEST:FAIL?", "TEST:ERR", "TEST:BLKH?", "TEST:BLKD?", "TEST:BLKT?", "STUB", "STUB?", "VOLT?", "MEAS:VOLT?", "MEAS:VOLT:DC?",
     ":MEASure:VOLTage:DC?", "VOLT:AC?", "MEAS:VOLT:AC?", "SYST:COMM:TCPIP:CONTROL?", "TEST1:NUM2", "TEST:NUMbers", "TEST12:NUMB345",
 };
 const char *HEADERS_STATUS[] = {
